@@ -421,7 +421,7 @@ def _route(draw, tier):
     mx = max(tids)
     for _ in range(draw(st.integers(1, 12))):
         if draw(st.integers(0, 5)) == 0:  # undeclared id, possibly repeated
-            u = draw(st.sampled_from([mx + 1, mx + 2, 0, 200, 65535, 256 + 25, 256 + 7, 512 + 26, 256 * 5 + 5, 256 * 3 + mx]))
+            u = draw(st.sampled_from([mx + 1, mx + 2, 0, 200, 65535, 256 + 25, 256 + 7, 512 + 26, 256 * 5 + 5, 256 * 3 + mx, 2**32 + 7, 2**32 + 26, 2**33 + 36, 2**35 + 25, 2**63 + 26]))
             frames += [[u, {"hex": draw(st.sampled_from(["", "0801", "0d0000803f"]))}]] * draw(st.integers(1, 3))
             continue
         i = draw(st.sampled_from(server_side))
@@ -430,7 +430,7 @@ def _route(draw, tier):
     for _ in range(draw(st.integers(0, 6))):
         i = draw(st.sampled_from(client_side))
         send.append([i, draw(pbgen.message_strategy(getattr(api_pb2, tids[i])))])
-    out = {"kind": "route", "noise": draw(st.booleans()), "frames": frames, "send": send}
+    out = {"kind": "route", "noise": draw(st.booleans()) and all(f[0] <= 65535 for f in frames), "frames": frames, "send": send}
     if draw(st.integers(0, 3)) == 1:
         out["send_idless"] = draw(st.lists(st.sampled_from(idless_names()), min_size=1, max_size=3))
     return out
@@ -466,6 +466,13 @@ def enumerated(tier):
     yield {"kind": "route", "noise": False, "frames": [[7, {}], [5, {}]], "send": []}
     for n in idless_names():
         yield {"kind": "route", "noise": False, "frames": [[8, {}]], "send": [[7, {}], [8, {}]], "send_idless": [n, n]}
+    # numbers congruent to declared ids modulo 2^32 / 2^64 are not declared either (plaintext type numbers are varints)
+    for u in (2**32 + 7, 2**32 + 36, 2**32 + 26, 2**33 + 25, 2**35 + 27, 2**63 + 26, 2**64 + 7):
+        yield {"kind": "route", "noise": False, "frames": [[26, {}], [u, {"hex": ""}], [u, {"hex": "0801"}], [25, {}]], "send": []}
+    # requests whose serialised size walks across the one-byte/two-byte length boundary of the plaintext frame
+    id_by_name = {n[0]: i for i, n in text_ids().items()}
+    for L in range(118, 128):
+        yield {"kind": "route", "noise": L % 2 == 0, "frames": [[8, {}]], "send": [[id_by_name["TextCommandRequest"], {"key": 1, "state": "x" * L}], [id_by_name["SelectCommandRequest"], {"key": 2, "state": "y" * (L + 1)}], [7, {}]]}
     yield {"kind": "route", "noise": True, "frames": [[8, {}]], "send": [], "send_idless": idless_names()}
     mx = max(tids)
     for u in (0, mx + 1, 65535, 256 + 25, 256 + 26, 512 + 7, 256 * 4 + 36, 256 + 5):
